@@ -322,3 +322,8 @@ fn o3_7_bisection_terminates_target_unreachable_from_below() {
     let p = eval_tcp_throughput_inv(rtt, target);
     assert!(p >= 0.0 && p <= 1.0, "[C03,C14] the initial loss event rate is a probability");
 }
+
+impl SendRateComp {
+    // the two values HalfConnection::fill_flush_alloc reads, set directly (credit-refill obligations)
+    pub(crate) fn verif_set_rate_and_rtt(&mut self, rate: u32, rtt_s: Option<f64>) { self.send_rate = rate; self.rtt_s = rtt_s; }
+}
